@@ -100,6 +100,54 @@ def record_case(cid, T, mods, seed, shuffle=True, origin='tlc'):
                 'nsent': int(re.search(r'(\d+) sentences', txt).group(1))}
     ev('analysis', analysis)
 
+    def analysis_cli():
+        # the same numbers through `treetools treeanalysis SRC TASK` on a rendered export file
+        import os
+        import re
+        import shutil
+        import subprocess
+        import tempfile
+        from . import core, fam_io
+        tmp = tempfile.mkdtemp(prefix='vf_an_')
+        try:
+            T2 = dict(T)
+            fn = os.path.join(tmp, 'tb.export')
+            Ts = [T] + [treeio.random_tree(random.Random(seed + 5 + k), nmax=6, maxcons=4, tags=('T', 'U')) for k in range(seed % 2)]
+            for t_ in Ts:
+                for x in t_['nodes']:
+                    for f_ in ('lemma', 'morph'):
+                        if x['a'][f_] == '~':
+                            x['a'][f_] = '--'
+            with open(fn, 'w', encoding='utf-8') as f:
+                for k, t_ in enumerate(Ts):
+                    f.write(fam_io.render_export(t_, k + 1, False, random.Random(k)))
+            outs = {}
+            for task in ('GapDegree', 'PosTags', 'SentenceCount'):
+                p = subprocess.run([core.VENV_PY, os.path.join(core.REPO, 'treetools'), 'treeanalysis', fn, task],
+                                   cwd=tmp, stdout=subprocess.PIPE, stderr=subprocess.PIPE)
+                outs[task] = p.stdout.decode('utf-8', 'replace') if p.returncode == 0 else ''
+            graphs = [treeio.Dumper(atoms).dump(treeio.build(t_, mods, atoms, None)) for t_ in Ts]
+            txt = outs['GapDegree']
+            m = re.search(r'(\d+) trees, (\d+) nodes', txt)
+            pt, pn, sec = [], [], None
+            for ln in txt.split('\n'):
+                if ln.startswith('Per tree'):
+                    sec = pt
+                elif ln.startswith('Per node'):
+                    sec = pn
+                mm = re.match(r'Gap degree\s+(\d+):\s+(\d+) ', ln)
+                if mm and sec is not None:
+                    sec.append([int(mm.group(1)), int(mm.group(2))])
+            mt = re.search(r'(\d+) different tags', outs['PosTags'])
+            ms = re.search(r'(\d+) sentences', outs['SentenceCount'])
+            return {'trees': graphs, 'ntrees': int(m.group(1)) if m else -1, 'nnodes': int(m.group(2)) if m else -1,
+                    'pertree': pt, 'pernode': pn, 'ntags': int(mt.group(1)) if mt else -1,
+                    'nsent': int(ms.group(1)) if ms else -1}
+        finally:
+            shutil.rmtree(tmp, ignore_errors=True)
+    if seed % 40 == 0:
+        events.append(dict(analysis_cli(), a='analysis', res='ok', exc='~'))
+
     def numbering():
         to.compute_export_numbering(root)
         return {'num': [o.data.get('num', -1) if isinstance(o.data.get('num', -1), int) else -1
